@@ -397,6 +397,10 @@ func (t *tr) stmts(list []ast.Stmt, k cont) string {
 		t.assignTo(x.X, "("+t.expr(x.X)+op+one+")")
 	case *ast.DeclStmt:
 		gd, ok := x.Decl.(*ast.GenDecl)
+		if ok && gd.Tok == token.CONST {
+			// a local constant: go/types folds every use (t.expr emits the value of a constant expression), nothing to bind
+			break
+		}
 		if !ok || gd.Tok != token.VAR {
 			t.fail(x, "unsupported declaration")
 		}
